@@ -174,6 +174,7 @@ CFG = {'module': 'Dnp3.Props.C02',
                'multi-threaded runtime; monitors only)',
  'engine_monitors': {'db': ['event_iff_beyond_deadband_of_last_reported',
                             'event_is_recorded_live_in_order',
+                            'complete_class_poll_carries_every_event',
                             'kept_until_released_or_discarded'],
                      'pairtcp': ['converged_after_quiescence',
                                  'events_delivered_at_least_once',
